@@ -134,20 +134,18 @@ structure Node where
 /-- `loadPeerList`; the Boolean is "no error" -/
 def loadPeerList (c : Consts) (h : HashFn) (n : Node) : Node × Bool :=
   if n.src = [] then (n, false)
-  else
-    let np := sortAddrs n.src
-    if n.peers = np then (n, true)
-    else ({ n with peers := np, hashes := table c h np }, true)
+  else if n.peers = sortAddrs n.src then (n, true)
+  else ({ n with peers := sortAddrs n.src, hashes := table c h (sortAddrs n.src) }, true)
 
 /-- `Start`; the Boolean is "no error" (`false` = "failed to find self in the peer list") -/
 def start (c : Consts) (h : HashFn) (n : Node) : Node × Bool :=
-  let n1 := (loadPeerList c h { n with started := true }).1
-  if n1.self ∈ n1.peers then ({ n1 with my := n1.self }, true) else (n1, false)
+  if n.self ∈ (loadPeerList c h { n with started := true }).1.peers then
+    ({ (loadPeerList c h { n with started := true }).1 with my := n.self }, true)
+  else ((loadPeerList c h { n with started := true }).1, false)
 
 /-- `MockPeers.UpdatePeers(l)` / a changed peer source: the callbacks run (errors only logged) -/
 def update (c : Consts) (h : HashFn) (n : Node) (l : List String) : Node :=
-  let n1 := { n with src := l }
-  if n1.started then (loadPeerList c h n1).1 else n1
+  if n.started then (loadPeerList c h { n with src := l }).1 else { n with src := l }
 
 inductive Decision where
   | keep                      -- handed to the local collector
@@ -206,5 +204,33 @@ def initNodes (selfs : List String) : List Node := selfs.map fun s => { self := 
 
 def run (c : Consts) (h : HashFn) (selfs : List String) (ops : List Op) : List Node :=
   ops.foldl (stepOp c h) (initNodes selfs)
+
+/-! ## vocabulary of the property statements (C17) -/
+
+/-- **The tie hypothesis.**  Among the partition hashes generated for the list, two different
+addresses never share a value: `h a seedᵢ = h b seedⱼ → a = b`.  (For wyhash: no 64-bit collision
+among at most `len + partitionCount` values.) -/
+def TieFree (c : Consts) (h : HashFn) (l : List String) : Prop :=
+  ∀ a ∈ l, ∀ b ∈ l,
+    ∀ s ∈ seeds h (partitionsPerPeer c l.length) c.peerSeed,
+    ∀ s' ∈ seeds h (partitionsPerPeer c l.length) c.peerSeed,
+      h a s = h b s' → a = b
+
+/-- The owner computed by the executable model for the peer list `l` (any order). -/
+def ownerOf (c : Consts) (h : HashFn) (l : List String) (id : String) : Option String :=
+  whichShard h (sortAddrs l) (table c h (sortAddrs l)) id
+
+/-- A node holds the list `L`: its `d.peers` is the sorted form of some rearrangement of `L` and
+its `d.hashes` is one of the tables the unstable sort can produce for it. -/
+structure Configured (c : Consts) (h : HashFn) (L : List String) (n : Node) : Prop where
+  peers : ∃ l, l.Perm L ∧ n.peers = sortAddrs l
+  table : IsTable c h n.peers n.hashes
+
+/-- A stably configured cluster: every node holds `L` and found itself (`myShard` = its own
+instance id), and every listed address is a node. -/
+structure Stable (c : Consts) (h : HashFn) (L : List String) (nodes : List Node) : Prop where
+  conf : ∀ n ∈ nodes, Configured c h L n
+  me : ∀ n ∈ nodes, n.my = n.self
+  all : ∀ a ∈ L, ∃ m ∈ nodes, m.self = a
 
 end Refinery.Model.Sharder
